@@ -70,6 +70,7 @@ type Report struct {
 	IfConv      int
 	Forks       map[string]int
 	DistinctOK  int
+	NontrivialOK int // ok paths that executed at least one assertion and on which the solver decided at least one branch or assertion over symbolic inputs
 }
 
 func trailString(tr []Decision) string {
@@ -221,6 +222,9 @@ func (p *Program) Explore(job Job) *Report {
 			switch out.Kind {
 			case "ok":
 				rep.DistinctOK++
+				if out.Asserts > 0 && (out.AssertsSym > 0 || out.Decisions > 0) {
+					rep.NontrivialOK++
+				}
 				if out.Model != nil && len(rep.Samples) < job.SampleMax {
 					pr.Inputs = inputsFromModel(out.Inputs, out.Model)
 					rep.Samples = append(rep.Samples, pr)
